@@ -30,4 +30,11 @@ if __name__ == "__main__":
         out = dict(pool.map(size, keys, chunksize=1))
     out = {k: v for k, v in out.items() if v is not None}
     json.dump(out, open("/verif/contracts/SIZES.json", "w"), indent=0, sort_keys=True)
+    shapes = {}
+    for k in keys:
+        c = DB.contracts.get(k) or DB.variants.get(k)
+        fi = repo.functions.get(c.qualname)
+        if fi is not None and c.loops:
+            shapes[c.qualname] = verify.function_shape(fi)
+    json.dump(shapes, open("/verif/contracts/SHAPES.json", "w"), indent=0, sort_keys=True)
     print(len(out), "contracts;", sum(out.values()), "obligations; largest:", sorted(out.items(), key=lambda kv: -kv[1])[:6])
